@@ -1126,9 +1126,51 @@ class WasmToIrCompiler:
             b = self.emit(ir.Cast(b, "cast", u_ir_typ))
             value = self.emit(ir.Binop(a, op, b, name, u_ir_typ))
             value = self.emit(ir.Cast(value, "cast", ir_typ))
+        elif opname in ["div_s", "rem_s"]:
+            value = self.gen_signed_division(a, op, b, name, ir_typ)
         else:
             value = self.emit(ir.Binop(a, op, b, name, ir_typ))
         self.push_value(value)
+
+    def gen_signed_division(self, a, op, b, name, ir_typ):
+        """Generate a signed division or remainder.
+
+        The quotient of the most negative value and -1 cannot be represented.
+        The division instruction of most machines faults in that case, also
+        when only the remainder is asked for. WebAssembly defines that div_s
+        traps, and that rem_s results in 0.
+        """
+        test_block = self.builder.new_block()
+        special_block = self.builder.new_block()
+        normal_block = self.builder.new_block()
+        final_block = self.builder.new_block()
+        minus_one = self.emit(ir.Const(-1, "minus_one", ir_typ))
+        self.emit(ir.CJump(b, "==", minus_one, test_block, normal_block))
+
+        self.builder.set_block(test_block)
+        min_value = self.emit(
+            ir.Const(-(1 << (ir_typ.bits - 1)), "min_value", ir_typ)
+        )
+        self.emit(
+            ir.CJump(a, "==", min_value, special_block, normal_block)
+        )
+
+        self.builder.set_block(special_block)
+        if op == "/":
+            self._runtime_call("unreachable")
+        zero = self.emit(ir.Const(0, "zero", ir_typ))
+        self.emit(ir.Jump(final_block))
+
+        self.builder.set_block(normal_block)
+        value = self.emit(ir.Binop(a, op, b, name, ir_typ))
+        self.emit(ir.Jump(final_block))
+
+        self.builder.set_block(final_block)
+        phi = ir.Phi(name, ir_typ)
+        phi.set_incoming(special_block, zero)
+        phi.set_incoming(normal_block, value)
+        self.emit(phi)
+        return phi
 
     def gen_cmpop(self, instruction):
         """Generate code for a comparison operation"""
